@@ -327,19 +327,23 @@ def _terminal(block: list[ast.stmt]) -> bool:
 
 def _drop_else(fn: ast.AST) -> None:
     """N7: `if c: ...return/raise/continue/break else: B` -> `if c: ...` followed by B (the else is redundant)."""
-    changed = True
-    while changed:
-        changed = False
-        for _owner, blk in list(_blocks(fn)):
-            for i, st in enumerate(blk):
-                if isinstance(st, ast.If) and st.orelse and _terminal(st.body):
-                    tail = st.orelse
-                    st.orelse = []
-                    blk[i + 1:i + 1] = tail
-                    changed = True
-                    break
-            if changed:
-                break
+    def fix(blk: list[ast.stmt]) -> None:
+        i = 0
+        while i < len(blk):
+            st = blk[i]
+            if isinstance(st, ast.If) and st.orelse and _terminal(st.body):
+                tail = st.orelse
+                st.orelse = []
+                blk[i + 1:i + 1] = tail
+            for fld in ('body', 'orelse', 'finalbody'):
+                sub = getattr(st, fld, None)
+                if isinstance(sub, list) and sub and isinstance(sub[0], ast.stmt):
+                    fix(sub)
+            if isinstance(st, ast.Try):
+                for h in st.handlers:
+                    fix(h.body)
+            i += 1
+    fix(fn.body)  # type: ignore[attr-defined]
 
 
 def run(tree: ast.Module, mutable: set[str] | None = None) -> tuple[ast.Module, list[str]]:
